@@ -59,8 +59,11 @@ base = {p: violations(p, {}) for p in ALL}
 mutants = []
 pending = []
 
+ONLY = set(sys.argv[1:])  # incremental mode: `mkmutants.py seed-C01-m11 ...` evaluates only these and merges them into the file
+
 def consider(name, changes, origin):
-    pending.append((name, changes, origin))
+    if not ONLY or name in ONLY:
+        pending.append((name, changes, origin))
 
 def evaluate(job):
     name, changes, origin = job
@@ -108,5 +111,9 @@ with mp.get_context('fork').Pool(int(os.environ.get('JOBS', '14'))) as pool:
         else:
             mutants.append(r)
             print(f"{r['name']:40s} reported by {r['expect'] or '-'}  (analysis error only: {sorted(r['analysis_errors']) or '-'})")
+if ONLY:
+    old = json.loads(Path('/verif/selftest/mutants.json').read_text())['mutants']
+    names = {m['name'] for m in mutants}
+    mutants = [m for m in old if m['name'] not in names] + mutants
 Path('/verif/selftest/mutants.json').write_text(json.dumps({'mutants': mutants}, indent=1))
 print(len(mutants), 'mutants;', sum(1 for m in mutants if m['expect']), 'reported by a real violation')
